@@ -100,6 +100,11 @@ T('C16',
   'Model checking over inputs, configurations and histories: every leaf type (floats, ints, bools, numpy scalars, strings incl. empty / 64 / 65 chars / non-ascii, 0-2-d arrays, empty arrays, lists, tuples, lists of strings, nested dicts) x key x nesting depth <=3 and all ordered sibling pairs through store_dictionary and read back with h5py; every binner x OutputSize x model type x grid for the self-consistency of stored spectra (wavelength grids, binned wavelength widths converted at the bin centre, binned = binner(native), tau presence by size); <=2 (thorough <=3 + full core product) deviations over model type x 10 temperature x 3 pressure x 7 gas sets x 4 fill x 7 contribution letters with write->load->write->load (same classes, parameter values, spectrum; second-generation file is a fixed point); and all set:<fitting parameter> / reload histories to depth 2 (3 for one configuration) where a reloaded model must stay bisimilar to the never-reloaded one.',
   "small scope: <=20 layers, 7 wavenumbers, in-memory opacities; h5py/numpy trusted; keys without '/'; explicit refusals by the writer are outside the quantifier; components needing unshipped data not enumerated; file-based profiles reloaded while their files still exist; two signatures are listed known findings")
 
+T('C07',
+  'explicit-state BFS over operation histories on real model+observation+Optimizer; canonical key incl. hidden prior tables; settings-dict reference + fresh-object differential + value round trip',
+  'Model checking over histories: every history of the 10 set-up operations (enable_fit, disable_fit, set_mode, set_boundary, set_factor_boundary, set_prior, enable_derived, disable_derived, compile_params, update_model, plus error letters) up to depth 3 over 4 parameters / 3 derived, depth 4 over 2 parameters, depth 2 from 2 non-initial presets (quick); depth 4 over 5 parameters / 3 derived / 4 prior kinds, depth 6 over 2 parameters, depth 5 over a model+observation pair (thorough), executed by breadth-first search on the real objects with states merged on a canonical key that contains the hidden prior tables; every step is compared with a settings-dict reference, every compile with a fresh model+optimiser given only the net settings, every reported value vector is written back (round trip), update_model must set exactly the fitted parameters to the prior-transformed values and leave all others bit-identical, error letters must raise and leave the state unchanged.',
+  'small scope: 5 of 11 parameters exercised, positive values/bounds only (log10 defined), views constrained only right after compile_params/update_model, boundaries of explicitly-priored parameters accepted in either reading, samplers not involved')
+
 
 def main():
     props = [json.loads(l) for l in open(os.path.join(VERIF, 'properties.jsonl'))]
